@@ -167,3 +167,6 @@ M2('c06-asgi-params-class-default', 'C06', 'R8', [
             pass
 """},
     {'file': 'falcon/asgi/request.py', 'old': "    _media: UnsetOr[Any] = _UNSET\n", 'new': "    _media: UnsetOr[Any] = _UNSET\n    _params: Dict[str, Any] = {}\n"}], also=('C19',))
+
+M('c06-create-scope-unquote-plus-default', 'C06', 'R9', 'falcon/testing/helpers.py',
+  "    path = uri.decode(path, unquote_plus=False)", "    path = uri.decode(path)", count=2, occurrence=None)
